@@ -314,11 +314,67 @@ fn run_suite<S: ShortGroupSignatureScheme>(em: &mut Emitter, rng: &mut Rng, suit
     }
 }
 
+/// schemas as wide as the library can key (and around block sizes): a conformant vector is signed and the returned
+/// signature covers every claim — the last ones included
+fn wide_schemas<S: ShortGroupSignatureScheme>(em: &mut Emitter, rng: &mut Rng, suite: &str) {
+    use credx::credential::{ClaimSchema, CredentialSchema};
+    use credx::issuer::Issuer;
+    let ns: Vec<usize> = if em.thorough() { vec![32, 33, 64, 65, 126, 127, 128] } else { vec![65, 127, 128] };
+    for n in ns {
+        let types = [ClaimType::Hashed, ClaimType::Number, ClaimType::Scalar, ClaimType::Enumeration];
+        let mut cs = vec![ClaimSchema { claim_type: ClaimType::Revocation, label: "c0".into(), print_friendly: false, validators: vec![] }];
+        for i in 1..n {
+            cs.push(ClaimSchema { claim_type: types[i % 4], label: format!("c{}", i), print_friendly: types[i % 4] == ClaimType::Hashed, validators: vec![] });
+        }
+        let schema = match CredentialSchema::new(Some("wide"), None, &[], &cs) {
+            Ok(s) => s,
+            Err(_) => continue,
+        };
+        em.oracle_case(&format!("{} wide-schema {}", suite, n));
+        let made = call_total(|| Issuer::<S>::new(&schema));
+        let (_public, mut issuer) = match made {
+            Out::Ok(x) => x,
+            o => {
+                em.count(&format!("wide-schema-{}:issuer-{}", n, o.class()));
+                continue;
+            }
+        };
+        let mut claims: Vec<ClaimData> = vec![RevocationClaim::from(format!("wide-{}-{}", n, rng.below(1 << 20))).into()];
+        for i in 1..n {
+            claims.push(match types[i % 4] {
+                ClaimType::Hashed => HashedClaim::from(format!("text {}", i)).into(),
+                ClaimType::Number => NumberClaim::from(i as isize * 7 - 100).into(),
+                ClaimType::Scalar => ScalarClaim::from(rng.scalar()).into(),
+                _ => EnumerationClaim { dst: format!("c{}", i), value: (i % 5) as u8, total_values: 5 }.into(),
+            });
+        }
+        em.count(&format!("wide-schema:{}", n));
+        match call(|| issuer.sign_credential(&claims)) {
+            Out::Ok(b) => {
+                let msgs: Vec<Scalar> = claims.iter().map(|c| c.to_scalar()).collect();
+                if b.credential.signature.verify(&b.issuer.verifying_key, &msgs).is_err() {
+                    em.violation("c15:returned-signature-invalid", format!("{}: the signature returned for a conformant vector over a {}-claim schema does not verify on the claims' encodings", suite, n), json!({"suite": suite, "n": n}));
+                }
+                for i in [n - 1, n - 2, n / 2] {
+                    let mut m2 = msgs.clone();
+                    m2[i] += Scalar::ONE;
+                    if b.credential.signature.verify(&b.issuer.verifying_key, &m2).is_ok() {
+                        em.violation("c15:returned-signature-does-not-cover-claim", format!("{}: the signature over a {}-claim credential still verifies with claim {} changed", suite, n, i), json!({"suite": suite, "n": n, "claim": i}));
+                    }
+                }
+            }
+            o => em.violation("c15:conformant-refused", format!("{}: a conformant vector over a {}-claim schema was not signed ({})", suite, n, o.class()), json!({"suite": suite, "n": n})),
+        }
+    }
+}
+
 pub fn gen_c15(em: &mut Emitter, rng: &mut Rng) {
     em.rule = "random credential schemas (1..5 claims of all five types, 0..2 validators of all four kinds incl. extreme bounds, regexes, any-of lists and \
                validators attached to types they do not apply to, 0/1/2 revocation positions) × claim vectors (schema-shaped with boundary values, non-UTF-8 \
                bytes, wrong length, wrong type / extra revocation claim at a random position, revoked identifier): sign_credential's verdict vs the Lean \
-               acceptance function and vs an independently written conformance predicate; returned credentials must verify (signature, handle)".into();
+               acceptance function and vs an independently written conformance predicate; returned credentials must verify (signature, handle); schemas of 65 / 127 / 128 claims (the widest the library keys): signed, signature covers the last claims".into();
     run_suite::<credx::knox::bbs::BbsScheme>(em, rng, "bbs");
     run_suite::<credx::knox::ps::PsScheme>(em, rng, "ps");
+    wide_schemas::<credx::knox::bbs::BbsScheme>(em, &mut rng.sub(1515), "bbs");
+    wide_schemas::<credx::knox::ps::PsScheme>(em, &mut rng.sub(1516), "ps");
 }
